@@ -356,7 +356,7 @@ func runProperty(repo, verif, prop, tier, replay string) int {
 
 func writeBrokenEvidence(verif, prop, tier string, err error, d time.Duration) {
 	ev := evidence{PropertyID: prop, Tier: tier, Level: "other", WallS: d.Seconds(),
-		Coverage: map[string]any{"explanation": "checker could not decide: " + err.Error(), "obligations": 0, "discharged": 0},
+		Coverage:   map[string]any{"explanation": "checker could not decide: " + err.Error(), "obligations": 0, "discharged": 0},
 		Violations: 0, Assumptions: []string{}}
 	b, _ := json.MarshalIndent(ev, "", " ")
 	os.MkdirAll(filepath.Join(verif, "evidence"), 0o755)
